@@ -205,6 +205,13 @@ func (engC11) Gen(r *Rng, s *Script, idx int, tier string) {
 			if r.Chance(1, 3) {
 				s.Steps = append(s.Steps, reg) // a second registration in the very same list
 			}
+			if r.Chance(1, 12) {
+				// a render-time callback that panics at some invocation: the errors raised
+				// earlier in that pass must not be lost with it
+				pr := genRegister(r, true, false)
+				pr.C, pr.E = 1+r.Intn(3), pr.E|8
+				s.Steps = append(s.Steps, pr)
+			}
 			if r.Chance(1, 4) {
 				// the SAME callback (one error source) also registered at another level
 				again := genRegister(r, true, false)
@@ -496,7 +503,8 @@ func (engC13) Gen(r *Rng, s *Script, idx int, tier string) {
 	m := drawBuildMix(r)
 	m.scramble = 0
 	nreg := r.Range(1, 3)
-	failing := r.Chance(1, 3) // callbacks that return errors must not disturb the traversal
+	panicky := r.Chance(1, 10) // a render-time callback that panics once; the caller recovers and renders again
+	failing := r.Chance(1, 3)  // callbacks that return errors must not disturb the traversal
 	same := r.Chance(1, 4) || (failing && r.Chance(1, 2))
 	s.Config["failing_callbacks"] = map[bool]int{false: 0, true: 1}[failing]
 	regAt := map[int]bool{}
@@ -524,6 +532,13 @@ func (engC13) Gen(r *Rng, s *Script, idx int, tier string) {
 			continue
 		}
 		if regAt[i] {
+			if panicky {
+				pr := genRegister(r, false, true)
+				pr.C, pr.E = 1+r.Intn(3), pr.E|8
+				s.Steps = append(s.Steps, pr)
+				panicky = false
+				continue
+			}
 			s.Steps = append(s.Steps, genRegister(r, failing, true))
 			if same && len(s.Steps) > 0 {
 				// a second registration in the very same list as the first
